@@ -379,8 +379,10 @@ pub fn run(cfg: &Cfg) {
         }
     }
     // seeded prefix (start + enable ring 0) followed by every history of depth <= depth+1
-    let prefix = [2usize, 7]; // Kick(0), Enable(0,1)
-    let mut level: Vec<Vec<usize>> = vec![prefix.to_vec()];
+    // prefixes: ring 0 started and enabled; ring 0 enabled but never started, then the device
+    // reset; ring 0 started, enabled and stopped again; both rings enabled through SET_FEATURES(-PF)
+    let prefixes: [&[usize]; 4] = [&[2, 7], &[7, 12], &[2, 7, 10], &[1, 3]];
+    let mut level: Vec<Vec<usize>> = prefixes.iter().map(|p| p.to_vec()).collect();
     for _ in 0..cfg.pick(3, 4) {
         level = level.iter().flat_map(|p| (0..n).map(move |i| { let mut q = p.clone(); q.push(i); q })).collect();
         for h in &level {
